@@ -13,48 +13,48 @@ import (
 	"github.com/google/martian/v3/zzverif/vf"
 )
 
-type dataCall struct {
+type zzdataCall struct {
 	data  []byte
 	isNil bool
 	ended bool
 }
 
 // sinkRec is the h2 sink that stands for the destination side of the relay.
-type sinkRec struct {
-	data    []dataCall
+type zzsinkRec struct {
+	data    []zzdataCall
 	headers int
 }
 
-func (s *sinkRec) Data(data []byte, ended bool) error {
-	s.data = append(s.data, dataCall{append([]byte(nil), data...), data == nil, ended})
+func (s *zzsinkRec) Data(data []byte, ended bool) error {
+	s.data = append(s.data, zzdataCall{append([]byte(nil), data...), data == nil, ended})
 	return nil
 }
-func (s *sinkRec) Header(h []hpack.HeaderField, ended bool, p http2.PriorityParam) error {
+func (s *zzsinkRec) Header(h []hpack.HeaderField, ended bool, p http2.PriorityParam) error {
 	s.headers++
 	return nil
 }
-func (s *sinkRec) Priority(http2.PriorityParam) error             { return nil }
-func (s *sinkRec) RSTStream(http2.ErrCode) error                  { return nil }
-func (s *sinkRec) PushPromise(uint32, []hpack.HeaderField) error { return nil }
+func (s *zzsinkRec) Priority(http2.PriorityParam) error             { return nil }
+func (s *zzsinkRec) RSTStream(http2.ErrCode) error                  { return nil }
+func (s *zzsinkRec) PushPromise(uint32, []hpack.HeaderField) error { return nil }
 
 // passThrough is a gRPC processor that records what it is shown and forwards it unchanged.
-type passThrough struct {
+type zzpassThrough struct {
 	next Processor
-	msgs []dataCall
+	msgs []zzdataCall
 }
 
-func (p *passThrough) Header(h []hpack.HeaderField, ended bool, prio http2.PriorityParam) error {
+func (p *zzpassThrough) Header(h []hpack.HeaderField, ended bool, prio http2.PriorityParam) error {
 	return p.next.Header(h, ended, prio)
 }
-func (p *passThrough) Message(data []byte, ended bool) error {
-	p.msgs = append(p.msgs, dataCall{append([]byte(nil), data...), data == nil, ended})
+func (p *zzpassThrough) Message(data []byte, ended bool) error {
+	p.msgs = append(p.msgs, zzdataCall{append([]byte(nil), data...), data == nil, ended})
 	return p.next.Message(data, ended)
 }
 
-var encNames = []string{"identity", "gzip", "deflate", "snappy", ""}
+var zzencNames = []string{"identity", "gzip", "deflate", "snappy", ""}
 
 // codecFor names the wire codec of a compressed message under a grpc-encoding.
-func codecFor(enc string) string {
+func zzcodecFor(enc string) string {
 	switch enc {
 	case "gzip":
 		return "gzip"
@@ -66,15 +66,15 @@ func codecFor(enc string) string {
 	return ""
 }
 
-type msg struct {
+type zzmsg struct {
 	compressed bool
 	plain      []byte
 }
 
-func wire(m msg, enc string) []byte {
+func zzwire(m zzmsg, enc string) []byte {
 	body := m.plain
-	if m.compressed && codecFor(enc) != "" {
-		body = vf.Enc(codecFor(enc), m.plain)
+	if m.compressed && zzcodecFor(enc) != "" {
+		body = vf.Enc(zzcodecFor(enc), m.plain)
 	}
 	out := []byte{0, byte(len(body) >> 24), byte(len(body) >> 16), byte(len(body) >> 8), byte(len(body))}
 	if m.compressed {
@@ -84,8 +84,8 @@ func wire(m msg, enc string) []byte {
 }
 
 // parseWire is the independent byte-level parser of a gRPC length-prefixed stream.
-func parseWire(b []byte, enc string) ([]msg, bool) {
-	var out []msg
+func zzparseWire(b []byte, enc string) ([]zzmsg, bool) {
+	var out []zzmsg
 	for len(b) > 0 {
 		if len(b) < 5 {
 			return nil, false
@@ -95,9 +95,9 @@ func parseWire(b []byte, enc string) ([]msg, bool) {
 			return nil, false
 		}
 		body := b[5 : 5+n]
-		m := msg{compressed: b[0] != 0}
-		if m.compressed && codecFor(enc) != "" {
-			p, ok := vf.Dec(codecFor(enc), body)
+		m := zzmsg{compressed: b[0] != 0}
+		if m.compressed && zzcodecFor(enc) != "" {
+			p, ok := vf.Dec(zzcodecFor(enc), body)
 			if !ok {
 				return nil, false
 			}
@@ -115,14 +115,14 @@ func VerifC11Reframe() {
 	maxMsgs := vf.Param("messages")
 	maxFrames := vf.Param("frames")
 	c2s := vf.Choice("direction", 2) == 0
-	enc := encNames[vf.Choice("encoding", len(encNames))]
+	enc := zzencNames[vf.Choice("encoding", len(zzencNames))]
 
 	// the factory may install a processor for both directions or only for the one under test
 	onlyThisDirection := vf.Choice("processor-only-for-this-direction", 2) == 1
-	var pt *passThrough
-	c2sSink, s2cSink := &sinkRec{}, &sinkRec{}
+	var pt *zzpassThrough
+	c2sSink, s2cSink := &zzsinkRec{}, &zzsinkRec{}
 	factory := AsStreamProcessorFactory(func(u *url.URL, server, client Processor) (Processor, Processor) {
-		a, b := &passThrough{next: server}, &passThrough{next: client}
+		a, b := &zzpassThrough{next: server}, &zzpassThrough{next: client}
 		if c2s {
 			pt = a
 			if onlyThisDirection {
@@ -154,12 +154,12 @@ func VerifC11Reframe() {
 
 	// the message sequence
 	n := vf.Choice("messages", maxMsgs+1)
-	var msgs []msg
+	var msgs []zzmsg
 	var stream []byte
 	for i := 0; i < n; i++ {
-		m := msg{compressed: vf.Bool("compressed"), plain: vf.Bytes("payload", vf.Choice("payload-len", vf.Param("payloadlens")))}
+		m := zzmsg{compressed: vf.Bool("compressed"), plain: vf.Bytes("payload", vf.Choice("payload-len", vf.Param("payloadlens")))}
 		msgs = append(msgs, m)
-		stream = append(stream, wire(m, enc)...)
+		stream = append(stream, zzwire(m, enc)...)
 	}
 	// every way of cutting the byte stream into up to maxFrames DATA frames
 	sepEnd := vf.Choice("end-stream-on-separate-empty-frame", 2) == 1
@@ -213,7 +213,7 @@ func VerifC11Reframe() {
 		}
 	}
 	vf.Assert(ends == 1, "sink-end-stream-exactly-once")
-	got, ok := parseWire(out, enc)
+	got, ok := zzparseWire(out, enc)
 	vf.Assert(ok, "sink-bytes-parse-in-the-same-wire-format-and-encoding")
 	if ok {
 		vf.Assert(len(got) == len(msgs), "sink-receives-same-number-of-messages")
@@ -229,9 +229,9 @@ func VerifC11Reframe() {
 
 // VerifC11NonGRPC: a stream without the gRPC content type passes through untouched.
 func VerifC11NonGRPC() {
-	c2sSink, s2cSink := &sinkRec{}, &sinkRec{}
+	c2sSink, s2cSink := &zzsinkRec{}, &zzsinkRec{}
 	factory := AsStreamProcessorFactory(func(u *url.URL, server, client Processor) (Processor, Processor) {
-		return &passThrough{next: server}, &passThrough{next: client}
+		return &zzpassThrough{next: server}, &zzpassThrough{next: client}
 	})
 	cp, _ := factory(&url.URL{Scheme: "https", Host: "origin"}, h2.VerifNewProcessors(c2sSink, s2cSink))
 	hdr := []hpack.HeaderField{{Name: ":path", Value: "/x"}, {Name: "content-type", Value: "text/plain"}}
